@@ -321,7 +321,8 @@ func cvEq(a, b cv) bool {
 type c01Case struct {
 	Vals []cv   `json:"values"`
 	Env  EnvCfg `json:"env"`
-	Mode string `json:"mode"` // "mem" | "stream" | "all"
+	Mode string `json:"mode"`                         // "mem" | "stream" | "all"
+	Each bool   `json:"flush_release_each,omitempty"` // the stream writer is flushed / the stream reader released after EVERY value
 	// per-Read deviations
 	Choices []int `json:"env_choices,omitempty"`
 	DevMax  int   `json:"dev_max,omitempty"`
@@ -504,6 +505,14 @@ func c01Check(c *mc.Ctx, k c01Case, doMem, doStreamW, doStreamR bool) {
 					failed = true
 					return
 				}
+				if k.Each {
+					if err := dw.Flush(); err != nil {
+						bad("bufwrite-error", "Flush after value #%d: %v", i, err)
+						failed = true
+						return
+					}
+					continue
+				}
 				if dw.WrittenLen() != ends[i] {
 					bad("bufwrite-length:"+v.K, "BufferWriter wrote %d bytes after value #%d %v, want %d", dw.WrittenLen(), i, v, ends[i])
 					failed = true
@@ -585,6 +594,20 @@ func c01Check(c *mc.Ctx, k c01Case, doMem, doStreamW, doStreamR bool) {
 					bad("streamread-value:"+v.K, "BufferReader/DefaultReader returned %v for value #%d %v", got, i, v)
 					failed = true
 					return
+				}
+				if k.Each {
+					start := 0
+					if i > 0 {
+						start = ends[i-1]
+					}
+					if int(br.Readn()) != ends[i]-start {
+						bad("streamread-length:"+v.K, "BufferReader/DefaultReader consumed %d bytes for value #%d %v (released before it), want %d", br.Readn(), i, v, ends[i]-start)
+						failed = true
+						return
+					}
+					// decoded strings/binaries are copies: they stay valid across the Release
+					dr.Release(nil)
+					continue
 				}
 				if int(br.Readn()) != ends[i] {
 					bad("streamread-length:"+v.K, "BufferReader/DefaultReader consumed %d bytes after value #%d %v, want %d", br.Readn(), i, v, ends[i])
